@@ -125,7 +125,13 @@ def run(ctx, chk):
                     last = v
             ok = last is False and pa.events[-1].kind == "ret"
             # nothing but loads between the last decoder call's bookkeeping and the return
-            idx = max(i for i, e in enumerate(pa.events) if e.kind == "call" and e.callee == "cbor_stream_decode")
+            dec_idx = [i for i, e in enumerate(pa.events) if e.kind == "call" and e.callee == "cbor_stream_decode"]
+            if not dec_idx:
+                # an item is returned on a path that never ran the decoder: whatever it is, it is not what these bytes denote
+                chk.ob("C14.stop", "path %d: a non-NULL result follows a decoder step" % k, False, where, fn=f.name, key="stop:nodecode:%d" % k,
+                       detail="cbor_load returns %s without having called the decoder on this path" % DR.fmt_term(pa.ret), path=pa.block_lines())
+                continue
+            idx = max(dec_idx)
             # (calls that only tidy up locals - e.g. releasing a cached stack record - do not concern the result)
             tail_calls = [e for e in pa.events[idx + 1:] if e.kind == "call" and (e.callee == "cbor_stream_decode" or e.ckind == "callback" or
                           any(isinstance(a, tuple) and (P.derives(a, RES) or P.derives(a, SRC)) for a in e.args))]
